@@ -1,7 +1,7 @@
 (* Property C05: keyed collections act as functions; >>, >>>, ++ and offsets
    keep keys right.  Statements about the reference semantics (Eval/Interp.v);
    the Go representations are tied to it by the correspondence run. *)
-From Arrai Require Import Base.Val Spec.SetAlg Eval.Interp Proofs.ValOrder Proofs.SetAlgP Proofs.KeyedP Proofs.SeqMapP.
+From Arrai Require Import Base.Val Spec.SetAlg Eval.Interp Proofs.ValOrder Proofs.SetAlgP Proofs.KeyedP Proofs.SeqMapP Rep.DictRep Proofs.DictRepP.
 
 (* what "the values paired with k" means *)
 Theorem C05_lookup :
@@ -99,3 +99,9 @@ Example C05_probe_call :
   run_data 60 (ESafeCall (EArrE [Some (ELit (vint 1)); None; Some (ELit (vint 3))]) (ELit (vint 1)) (ELit (vint 9)))
   = Ok (vint 9).
 Proof. vm_compute. reflexivity. Qed.
+
+(* the Go dictionary lookup (Dict.CallAll transcribed in Rep/DictRep.v) yields exactly the values paired with the key *)
+Theorem C05_dictrep_call_all_is_the_paired_values :
+  forall d k x, dict_ok d = true -> (In x (dict_call_all d k) <-> In (ventry k x) (dict_enum d)).
+Proof. exact dict_call_all_spec. Qed.
+Print Assumptions C05_dictrep_call_all_is_the_paired_values.
